@@ -179,6 +179,9 @@ def main(argv=None):
                 unstable.append(oid)
                 continue
             violations.append((oid, lst[0]))
+        _kf = registry.load_findings()
+        known_v = [(oid, a) for oid, a in violations if registry.match_finding(_kf, prop, oid)]
+        violations = [(oid, a) for oid, a in violations if not registry.match_finding(_kf, prop, oid)]
         if tier == "quick" and violations:
             # re-run the affected units with two more seeds and a larger rlimit
             aff = sorted(set(v[1]["unit"] for v in violations))
@@ -199,6 +202,7 @@ def main(argv=None):
                 else:
                     unstable.append(oid)
             violations = keep
+        violations = known_v + violations
     # known findings
     findings = registry.load_findings()
     known_lines = []
